@@ -284,6 +284,12 @@ def g9(ctx: Ctx):
                     # everywhere else names are compared in their emitted form
                     par = parents.get(id(n))
                     okc = isinstance(par, ast.Call) and call_name(par) == "BasicVar" and par.args and par.args[0] is n
+                    if not okc and isinstance(par, ast.Assign) and len(par.targets) == 1 and isinstance(par.targets[0], ast.Name):
+                        # kept in a local first: every use of that local has to be the BasicVar(...) reconstruction
+                        tmp_ = par.targets[0].id
+                        fn_ = next((f_ for f_ in ast.walk(m.tree) if isinstance(f_, ast.FunctionDef) and any(x is par for x in ast.walk(f_))), None)
+                        uses_ = [u for u in ast.walk(fn_) if isinstance(u, ast.Name) and u.id == tmp_ and isinstance(u.ctx, ast.Load)] if fn_ is not None else []
+                        okc = bool(uses_) and all(isinstance(parents.get(id(u)), ast.Call) and call_name(parents.get(id(u))) == "BasicVar" and parents.get(id(u)).args and parents.get(id(u)).args[0] is u for u in uses_)
                     ctx.ob(
                         f"strip-prefix:{skey}:use",
                         bool(okc),
